@@ -139,6 +139,12 @@ def adopt_new_units(world, model, obs, prop):
                 u.toks = []
             else:
                 u.toks = rest + fwd
+    # the order of the sections themselves (layout_module iterates a set)
+    sec_order = [name for _, name in sorted((min((o.addr for o in lst if o.addr is not None), default=1 << 62), name) for name, lst in obs.sections.items() if lst)]
+    prev = getattr(model, "section_addr_order", None)
+    if prev is not None and [n for n in prev if n in sec_order] != [n for n in sec_order if n in prev]:
+        model.reordered_ever = True
+    model.section_addr_order = sec_order
     if getattr(model, "reordered_ever", False):
         obs.reordered = True
     # The order of the non-empty units of a section must equal the real
